@@ -13,6 +13,17 @@
 
   It is an executable oracle for property C08 (run on the bytes the
   implementation emits); it is not used by the code model.  Core Lean only.
+
+  Structure (so that the oracle itself can be verified — Proofs/SpecDecode*.lean,
+  Props/C08Decode.lean):
+
+    bytes --strictObjects--> objects --splitMsg--> (header fields, packets)
+          --XMsg.ofVals--> typed wire fields `XMsg`           (layer W, syntax)
+          --XMsg.check P--> opened content                    (layer S, cryptography)
+
+  Layer W has an inverse `XMsg.render` (the reference ENCODING of the fields);
+  `XMsg.parse b = ok m → m.render = b` and `m.WF → parse m.render = ok m`.
+  Layer S recomputes every nonce, key box, MAC and signature input.
 -/
 import Saltpack.Model.Spec
 
@@ -23,6 +34,19 @@ abbrev R := Except String
 
 def need (c : Bool) (msg : String) : R Unit := if c then .ok () else .error msg
 
+/-- `mapM` in `R`, structurally (so that proofs are by induction on the list) -/
+def mapR {α β : Type} (f : α → R β) : List α → R (List β)
+  | [] => .ok []
+  | a :: as =>
+    match f a with
+    | .error e => .error e
+    | .ok b =>
+      match mapR f as with
+      | .error e => .error e
+      | .ok bs => .ok (b :: bs)
+
+/-! ### layer W — strict MessagePack, typed wire fields -/
+
 /-- parse a whole byte string into objects, demanding minimal encodings -/
 def strictObjects (b : Bytes) : R (List Val) :=
   let (vs, stop) := parseAll (b.length + 1) b
@@ -30,10 +54,11 @@ def strictObjects (b : Bytes) : R (List Val) :=
   | some _ => .error "trailing bytes that are not MessagePack"
   | none => if (vs.flatMap encode) == b then .ok vs else .error "non-minimal MessagePack encoding"
 
-def strictOne (b : Bytes) : R Val := do
-  match ← strictObjects b with
-  | [v] => .ok v
-  | _ => .error "header bytes are not exactly one object"
+def strictOne (b : Bytes) : R Val :=
+  match strictObjects b with
+  | .error e => .error e
+  | .ok [v] => .ok v
+  | .ok _ => .error "header bytes are not exactly one object"
 
 def asBin (what : String) : Val → R Bytes
   | .bin b => .ok b
@@ -41,39 +66,313 @@ def asBin (what : String) : Val → R Bytes
   | .str _ => .error (what ++ " is a str, not a bin")
   | _ => .error (what ++ " is not a bin")
 
-def asBinLen (what : String) (n : Nat) (v : Val) : R Bytes := do
-  let b ← asBin what v
-  need (b.length = n) s!"{what} has length {b.length}, expected {n}"
-  .ok b
+def asBinLen (what : String) (n : Nat) (v : Val) : R Bytes :=
+  match asBin what v with
+  | .error e => .error e
+  | .ok b => if b.length = n then .ok b else .error s!"{what} has length {b.length}, expected {n}"
 
 def asBool (what : String) : Val → R Bool
   | .bool b => .ok b
   | _ => .error (what ++ " is not a boolean")
 
-structure Common where
-  major : Int
-  headerBytes : Bytes
-  fields : List Val
-  packets : List Val
+/-- a message is a header packet — a `bin` holding the encoding of ONE list —
+    followed by the payload packets -/
+def splitMsg (msg : Bytes) : R (List Val × List Val) :=
+  match strictObjects msg with
+  | .error e => .error e
+  | .ok [] => .error "empty message"
+  | .ok (h :: packets) =>
+    match asBin "header packet" h with
+    | .error e => .error e
+    | .ok hb =>
+      match strictOne hb with
+      | .error e => .error e
+      | .ok (.arr fields) => .ok (fields, packets)
+      | .ok _ => .error "header is not a list"
 
-/-- header packet + common header fields `[format name, [major, minor], mode]` -/
-def common (msg : Bytes) (mode : Int) (nfields : Nat) : R Common := do
-  match ← strictObjects msg with
-  | [] => .error "empty message"
-  | h :: packets =>
-    let hb ← asBin "header packet" h
-    match ← strictOne hb with
-    | .arr fields =>
-      need (fields.length = nfields) s!"header has {fields.length} fields, expected {nfields}"
-      match fields with
-      | .str fn :: .arr [.int ma, .int mi] :: .int ty :: _ =>
-        need (fn == sFormatName) "format name is not \"saltpack\""
-        need (ma == 1 || ma == 2) s!"major version {ma}"
-        need (mi == 0) s!"minor version {mi}"
-        need (ty == mode) s!"mode {ty}, expected {mode}"
-        .ok ⟨ma, hb, fields, packets⟩
-      | _ => .error "header does not start with [str, [int, int], int]"
-    | _ => .error "header is not a list"
+/-- the inverse: header fields and packets to bytes -/
+def joinMsg (fields packets : List Val) : Bytes :=
+  encBin (encode (.arr fields)) ++ packets.flatMap encode
+
+/-- the common header fields `[format name, [major, minor], mode]` -/
+def commonVals (major mode : Int) : List Val :=
+  [.str sFormatName, .arr [.int major, .int 0], .int mode]
+
+def ofCommon (mode : Int) : List Val → R (Int × List Val)
+  | .str fn :: .arr [.int ma, .int mi] :: .int ty :: rest =>
+    if fn ≠ sFormatName then .error "format name is not \"saltpack\""
+    else if ¬ (ma = 1 ∨ ma = 2) then .error s!"major version {ma}"
+    else if mi ≠ 0 then .error s!"minor version {mi}"
+    else if ty ≠ mode then .error s!"mode {ty}, expected {mode}"
+    else .ok (ma, rest)
+  | _ => .error "header does not start with [str, [int, int], int]"
+
+/-! #### encryption -/
+
+structure EncRecv where
+  kid : Option Bytes        -- `none`: nil on the wire (hidden recipient)
+  box : Bytes
+  deriving DecidableEq, Repr
+
+structure EncPkt where
+  final : Bool              -- V1: not on the wire (`false`)
+  auths : List Bytes
+  ct : Bytes
+  deriving DecidableEq, Repr
+
+structure EncMsg where
+  major : Int
+  eph : Bytes
+  ssb : Bytes
+  recvs : List EncRecv
+  pkts : List EncPkt
+  deriving DecidableEq, Repr
+
+def EncRecv.toVal (r : EncRecv) : Val :=
+  .arr [match r.kid with | none => .nil | some k => .bin k, .bin r.box]
+
+def EncRecv.ofVal : Val → R EncRecv
+  | .arr [kidV, boxV] =>
+    match asBinLen "payload key box" 48 boxV with
+    | .error e => .error e
+    | .ok bx =>
+      match kidV with
+      | .nil => .ok ⟨none, bx⟩
+      | v =>
+        match asBinLen "recipient key id" 32 v with
+        | .error e => .error e
+        | .ok k => .ok ⟨some k, bx⟩
+  | _ => .error "recipient entry is not a pair"
+
+def EncPkt.toVal (major : Int) (p : EncPkt) : Val :=
+  if major = 1 then .arr [.arr (p.auths.map .bin), .bin p.ct]
+  else .arr [.bool p.final, .arr (p.auths.map .bin), .bin p.ct]
+
+def EncPkt.mk' (fl : Bool) (authsV ctV : Val) : R EncPkt :=
+  match authsV with
+  | .arr auths =>
+    match mapR (asBinLen "authenticator" 32) auths with
+    | .error e => .error e
+    | .ok as =>
+      match asBin "ciphertext" ctV with
+      | .error e => .error e
+      | .ok ct => .ok ⟨fl, as, ct⟩
+  | _ => .error "authenticators are not a list"
+
+def EncPkt.ofVal (major : Int) : Val → R EncPkt
+  | .arr [a, ct] => if major = 1 then EncPkt.mk' false a ct else .error "payload packet has the wrong shape"
+  | .arr [f, a, ct] =>
+    if major = 1 then .error "payload packet has the wrong shape"
+    else match asBool "final flag" f with
+      | .error e => .error e
+      | .ok fl => EncPkt.mk' fl a ct
+  | _ => .error "payload packet has the wrong shape"
+
+def EncMsg.fields (m : EncMsg) : List Val :=
+  commonVals m.major sModeEncryption ++ [.bin m.eph, .bin m.ssb, .arr (m.recvs.map EncRecv.toVal)]
+
+def EncMsg.packets (m : EncMsg) : List Val := m.pkts.map (EncPkt.toVal m.major)
+
+/-- the bytes of the header packet's content (what is hashed) -/
+def EncMsg.headerBytes (m : EncMsg) : Bytes := encode (.arr m.fields)
+
+/-- the reference ENCODING of the wire fields -/
+def EncMsg.render (m : EncMsg) : Bytes := joinMsg m.fields m.packets
+
+def EncMsg.ofVals (fields packets : List Val) : R EncMsg :=
+  match ofCommon sModeEncryption fields with
+  | .error e => .error e
+  | .ok (major, [ephV, ssbV, .arr rcv]) =>
+    match asBinLen "ephemeral key" 32 ephV with
+    | .error e => .error e
+    | .ok eph =>
+      match asBinLen "sender secretbox" 48 ssbV with
+      | .error e => .error e
+      | .ok ssb =>
+        match mapR EncRecv.ofVal rcv with
+        | .error e => .error e
+        | .ok recvs =>
+          match mapR (EncPkt.ofVal major) packets with
+          | .error e => .error e
+          | .ok pkts => .ok ⟨major, eph, ssb, recvs, pkts⟩
+  | .ok _ => .error s!"header has {fields.length} fields, expected 6 (the last one a list)"
+
+def EncMsg.parse (msg : Bytes) : R EncMsg :=
+  match splitMsg msg with
+  | .error e => .error e
+  | .ok (f, p) => EncMsg.ofVals f p
+
+/-! #### attached and detached signatures -/
+
+structure AttPkt where
+  final : Bool              -- V1: not on the wire (`false`)
+  sig : Bytes
+  chunk : Bytes
+  deriving DecidableEq, Repr
+
+structure AttMsg where
+  major : Int
+  signer : Bytes
+  nonce : Bytes
+  pkts : List AttPkt
+  deriving DecidableEq, Repr
+
+def AttPkt.toVal (major : Int) (p : AttPkt) : Val :=
+  if major = 1 then .arr [.bin p.sig, .bin p.chunk] else .arr [.bool p.final, .bin p.sig, .bin p.chunk]
+
+def AttPkt.mk' (fl : Bool) (sigV chV : Val) : R AttPkt :=
+  match asBinLen "signature" 64 sigV with
+  | .error e => .error e
+  | .ok sg =>
+    match asBin "payload chunk" chV with
+    | .error e => .error e
+    | .ok ch => .ok ⟨fl, sg, ch⟩
+
+def AttPkt.ofVal (major : Int) : Val → R AttPkt
+  | .arr [s, ch] => if major = 1 then AttPkt.mk' false s ch else .error "payload packet has the wrong shape"
+  | .arr [f, s, ch] =>
+    if major = 1 then .error "payload packet has the wrong shape"
+    else match asBool "final flag" f with
+      | .error e => .error e
+      | .ok fl => AttPkt.mk' fl s ch
+  | _ => .error "payload packet has the wrong shape"
+
+def sigFields (major mode : Int) (signer nonce : Bytes) : List Val :=
+  commonVals major mode ++ [.bin signer, .bin nonce]
+
+def AttMsg.fields (m : AttMsg) : List Val := sigFields m.major sModeAttached m.signer m.nonce
+def AttMsg.packets (m : AttMsg) : List Val := m.pkts.map (AttPkt.toVal m.major)
+def AttMsg.headerBytes (m : AttMsg) : Bytes := encode (.arr m.fields)
+def AttMsg.render (m : AttMsg) : Bytes := joinMsg m.fields m.packets
+
+/-- signature header: `(major, signer public key, nonce)` -/
+def ofSigFields (mode : Int) (fields : List Val) : R (Int × Bytes × Bytes) :=
+  match ofCommon mode fields with
+  | .error e => .error e
+  | .ok (major, [pkV, nV]) =>
+    match asBinLen "signer public key" 32 pkV with
+    | .error e => .error e
+    | .ok pk =>
+      match asBin "header nonce" nV with
+      | .error e => .error e
+      | .ok n => .ok (major, pk, n)
+  | .ok _ => .error s!"header has {fields.length} fields, expected 5"
+
+def AttMsg.ofVals (fields packets : List Val) : R AttMsg :=
+  match ofSigFields sModeAttached fields with
+  | .error e => .error e
+  | .ok (major, pk, n) =>
+    match mapR (AttPkt.ofVal major) packets with
+    | .error e => .error e
+    | .ok pkts => .ok ⟨major, pk, n, pkts⟩
+
+def AttMsg.parse (msg : Bytes) : R AttMsg :=
+  match splitMsg msg with
+  | .error e => .error e
+  | .ok (f, p) => AttMsg.ofVals f p
+
+structure DetMsg where
+  major : Int
+  signer : Bytes
+  nonce : Bytes
+  sig : Bytes
+  deriving DecidableEq, Repr
+
+def DetMsg.fields (m : DetMsg) : List Val := sigFields m.major sModeDetached m.signer m.nonce
+def DetMsg.headerBytes (m : DetMsg) : Bytes := encode (.arr m.fields)
+def DetMsg.render (m : DetMsg) : Bytes := joinMsg m.fields [.bin m.sig]
+
+def DetMsg.ofVals (fields packets : List Val) : R DetMsg :=
+  match ofSigFields sModeDetached fields with
+  | .error e => .error e
+  | .ok (major, pk, n) =>
+    match packets with
+    | [sigV] =>
+      match asBinLen "signature" 64 sigV with
+      | .error e => .error e
+      | .ok sg => .ok ⟨major, pk, n, sg⟩
+    | _ => .error "a detached signature is a header packet and one signature"
+
+def DetMsg.parse (msg : Bytes) : R DetMsg :=
+  match splitMsg msg with
+  | .error e => .error e
+  | .ok (f, p) => DetMsg.ofVals f p
+
+/-! #### signcryption -/
+
+structure ScRecv where
+  ident : Bytes
+  box : Bytes
+  deriving DecidableEq, Repr
+
+structure ScPkt where
+  ct : Bytes
+  final : Bool
+  deriving DecidableEq, Repr
+
+structure ScMsg where
+  eph : Bytes
+  ssb : Bytes
+  recvs : List ScRecv
+  pkts : List ScPkt
+  deriving DecidableEq, Repr
+
+def ScRecv.toVal (r : ScRecv) : Val := .arr [.bin r.ident, .bin r.box]
+
+def ScRecv.ofVal : Val → R ScRecv
+  | .arr [idV, boxV] =>
+    match asBin "recipient identifier" idV with
+    | .error e => .error e
+    | .ok i =>
+      match asBinLen "payload key box" 48 boxV with
+      | .error e => .error e
+      | .ok bx => .ok ⟨i, bx⟩
+  | _ => .error "recipient entry is not a pair"
+
+def ScPkt.toVal (p : ScPkt) : Val := .arr [.bin p.ct, .bool p.final]
+
+def ScPkt.ofVal : Val → R ScPkt
+  | .arr [ctV, fV] =>
+    match asBin "ciphertext" ctV with
+    | .error e => .error e
+    | .ok ct =>
+      match asBool "final flag" fV with
+      | .error e => .error e
+      | .ok f => .ok ⟨ct, f⟩
+  | _ => .error "payload packet has the wrong shape"
+
+def ScMsg.fields (m : ScMsg) : List Val :=
+  commonVals 2 sModeSigncryption ++ [.bin m.eph, .bin m.ssb, .arr (m.recvs.map ScRecv.toVal)]
+def ScMsg.packets (m : ScMsg) : List Val := m.pkts.map ScPkt.toVal
+def ScMsg.headerBytes (m : ScMsg) : Bytes := encode (.arr m.fields)
+def ScMsg.render (m : ScMsg) : Bytes := joinMsg m.fields m.packets
+
+def ScMsg.ofVals (fields packets : List Val) : R ScMsg :=
+  match ofCommon sModeSigncryption fields with
+  | .error e => .error e
+  | .ok (major, [ephV, ssbV, .arr rcv]) =>
+    if major ≠ 2 then .error "signcryption is version 2"
+    else
+    match asBinLen "ephemeral key" 32 ephV with
+    | .error e => .error e
+    | .ok eph =>
+      match asBinLen "sender secretbox" 48 ssbV with
+      | .error e => .error e
+      | .ok ssb =>
+        match mapR ScRecv.ofVal rcv with
+        | .error e => .error e
+        | .ok recvs =>
+          match mapR ScPkt.ofVal packets with
+          | .error e => .error e
+          | .ok pkts => .ok ⟨eph, ssb, recvs, pkts⟩
+  | .ok _ => .error s!"header has {fields.length} fields, expected 6 (the last one a list)"
+
+def ScMsg.parse (msg : Bytes) : R ScMsg :=
+  match splitMsg msg with
+  | .error e => .error e
+  | .ok (f, p) => ScMsg.ofVals f p
+
+/-! ### layer S — nonces, key boxes, MACs, signatures, chunk rules -/
 
 section
 variable (P : Prims)
@@ -89,180 +388,255 @@ def showB (b : Bytes) : String :=
     let h (n : Nat) : Char := if n < 10 then Char.ofNat (48 + n) else Char.ofNat (87 + n)
     [h (x.toNat / 16), h (x.toNat % 16)]))
 
+/-- the chunk rules of the specifications for the packet at index `i`
+    (`last`: it is the last packet of the message) -/
+def chunkRule (major : Int) (i : Nat) (last final : Bool) (chunk : Bytes) : R Unit :=
+  if 1048576 < chunk.length then .error "chunk longer than 1 MiB"
+  else if major = 1 then
+    need (chunk.isEmpty == last) s!"V1: empty chunk / last packet mismatch at {i}"
+  else if final ≠ last then .error s!"V2: final flag on packet {i}, last={last}"
+  else need (!chunk.isEmpty || (i == 0 && last)) "V2: empty chunk that is not the sole chunk"
+
+/-! #### encryption -/
+
+/-- recipient `i` (secret key `sk`): the key id, if shown, is the public key;
+    the payload key box opens under the specified nonce; returns the payload key -/
+def encRecvKey (major : Int) (eph : Bytes) (i : Nat) (r : EncRecv) (sk : Bytes) : R Bytes :=
+  if r.kid.isSome ∧ r.kid ≠ some (P.boxPub sk) then .error "recipient key id is not the recipient's public key"
+  else
+    match P.unbox sk eph (if major = 1 then sNoncePayloadKeyV1 else sNonceRecip i) r.box with
+    | none => .error s!"payload key box {i} does not open"
+    | some k => if k.length = 32 then .ok k else .error "payload key length"
+
+def encRecvKeys (major : Int) (eph : Bytes) : Nat → List EncRecv → List Bytes → R (List Bytes)
+  | _, [], [] => .ok []
+  | i, r :: rs, sk :: sks =>
+    match encRecvKey P major eph i r sk with
+    | .error e => .error e
+    | .ok k =>
+      match encRecvKeys major eph (i + 1) rs sks with
+      | .error e => .error e
+      | .ok ks => .ok (k :: ks)
+  | _, _, _ => .error "recipient count"
+
+/-- the hash every authenticator is computed over -/
+def encMacInput (major : Int) (hh : Bytes) (i : Nat) (p : EncPkt) : Bytes :=
+  if major = 1 then P.hash (hh ++ sNonceChunk i ++ p.ct)
+  else P.hash (hh ++ sNonceChunk i ++ sFinal p.final ++ p.ct)
+
+/-- packet `i`: EVERY recipient's authenticator, decryption, chunk rules; returns the chunk -/
+def encPkt (major : Int) (pk hh : Bytes) (mks : List Bytes) (i : Nat) (last : Bool) (p : EncPkt) : R Bytes :=
+  if p.auths ≠ mks.map (fun k => (P.hmac k (encMacInput P major hh i p)).take 32) then
+    .error s!"packet {i}: the authenticators are not the specified MACs, one per recipient"
+  else
+    match P.sbOpen pk (sNonceChunk i) p.ct with
+    | none => .error s!"packet {i} does not decrypt"
+    | some chunk =>
+      match chunkRule major i last p.final chunk with
+      | .error e => .error e
+      | .ok _ => .ok chunk
+
+def encPkts (major : Int) (pk hh : Bytes) (mks : List Bytes) : Nat → List EncPkt → R (List Bytes)
+  | _, [] => .ok []
+  | i, p :: ps =>
+    match encPkt P major pk hh mks i ps.isEmpty p with
+    | .error e => .error e
+    | .ok c =>
+      match encPkts major pk hh mks (i + 1) ps with
+      | .error e => .error e
+      | .ok cs => .ok (c :: cs)
+
+structure EncOpened where
+  payloadKey : Bytes
+  senderPub : Bytes
+  chunks : List Bytes
+  deriving DecidableEq, Repr
+
+def macKeys (major : Int) (secrets : List Bytes) (senderPub eph hh : Bytes) : List Bytes :=
+  secrets.zipIdx.map (fun (sk, i) => macKeyRecipient P major sk senderPub eph hh i)
+
 /-- encryption V1/V2: `secrets` are the recipients' secret keys in header order -/
-def encryption (msg : Bytes) (secrets : List Bytes) : R String := do
-  let c ← common msg sModeEncryption 6
-  match c.fields with
-  | [_, _, _, ephV, ssbV, .arr rcv] =>
-    let eph ← asBinLen "ephemeral key" 32 ephV
-    let ssb ← asBinLen "sender secretbox" 48 ssbV
-    need (rcv.length = secrets.length ∧ 0 < rcv.length) "recipient count"
-    let hh := P.hash c.headerBytes
-    -- recipients
-    let mut pk? : Option Bytes := none
-    let mut kids : List String := []
-    for (r, i) in rcv.zipIdx do
-      match r with
-      | .arr [kidV, boxV] =>
-        let bx ← asBinLen "payload key box" 48 boxV
-        let kid ← match kidV with
-          | .nil => pure "hidden"
-          | v => showB <$> asBinLen "recipient key id" 32 v
-        let sk := secrets.getD i []
-        if kid != "hidden" then need (kid == showB (P.boxPub sk)) "recipient key id is not the recipient's public key"
-        kids := kids ++ [kid]
-        let nonce := if c.major = 1 then sNoncePayloadKeyV1 else sNonceRecip i
-        match P.unbox sk eph nonce bx with
-        | none => throw s!"payload key box {i} does not open"
-        | some k =>
-          need (k.length = 32) "payload key length"
-          match pk? with
-          | none => pk? := some k
-          | some k0 => need (k0 == k) "recipients disagree on the payload key"
-      | _ => throw "recipient entry is not a pair"
-    let pk := pk?.getD []
-    let senderPub ← match P.sbOpen pk sNonceSenderKey ssb with
-      | some s => pure s
-      | none => throw "sender secretbox does not open"
-    let mks := secrets.zipIdx.map (fun (sk, i) => macKeyRecipient P c.major sk senderPub eph hh i)
-    -- packets
-    need (0 < c.packets.length) "no payload packet"
-    let mut out : Bytes := []
-    for (p, i) in c.packets.zipIdx do
-      let last := i + 1 == c.packets.length
-      let (final, authsV, ctV) ← match c.major, p with
-        | 1, .arr [a, ct] => pure (last, a, ct)
-        | 2, .arr [f, a, ct] => do
-          let fl ← asBool "final flag" f
-          pure (fl, a, ct)
-        | _, _ => throw s!"packet {i} has the wrong shape"
-      let ct ← asBin "ciphertext" ctV
-      let nonce := sNonceChunk i
-      let h := if c.major = 1 then P.hash (hh ++ nonce ++ ct) else P.hash (hh ++ nonce ++ sFinal final ++ ct)
-      match authsV with
-      | .arr auths =>
-        need (auths.length = mks.length) s!"packet {i}: {auths.length} authenticators for {mks.length} recipients"
-        for (a, j) in auths.zipIdx do
-          let ab ← asBinLen "authenticator" 32 a
-          need (ab == (P.hmac (mks.getD j []) h).take 32) s!"packet {i}: authenticator {j} does not verify"
-      | _ => throw "authenticators are not a list"
-      match P.sbOpen pk nonce ct with
-      | none => throw s!"packet {i} does not decrypt"
-      | some chunk =>
-        need (chunk.length ≤ 1048576) "chunk longer than 1 MiB"
-        if c.major = 1 then need (chunk.isEmpty == last) s!"V1: empty chunk / last packet mismatch at {i}"
+def EncMsg.check (m : EncMsg) (secrets : List Bytes) : R EncOpened :=
+  match encRecvKeys P m.major m.eph 0 m.recvs secrets with
+  | .error e => .error e
+  | .ok [] => .error "recipient count"
+  | .ok (pk :: rest) =>
+    if ¬ (∀ k ∈ rest, k = pk) then .error "recipients disagree on the payload key"
+    else
+      match P.sbOpen pk sNonceSenderKey m.ssb with
+      | none => .error "sender secretbox does not open"
+      | some senderPub =>
+        if m.pkts = [] then .error "no payload packet"
         else
-          need (final == last) s!"V2: final flag on packet {i}, last={last}"
-          need (!chunk.isEmpty || (i == 0 && last)) "V2: empty chunk that is not the sole chunk"
-        out := out ++ chunk
-    .ok s!"plaintext={showB out} sender={showB senderPub} anon={senderPub == eph} recipients={",".intercalate kids}"
-  | _ => .error "header shape"
+          let hh := P.hash m.headerBytes
+          match encPkts P m.major pk hh (macKeys P m.major secrets senderPub m.eph hh) 0 m.pkts with
+          | .error e => .error e
+          | .ok chunks => .ok ⟨pk, senderPub, chunks⟩
+
+def showKid : Option Bytes → String
+  | none => "hidden"
+  | some k => showB k
+
+def encryption (msg : Bytes) (secrets : List Bytes) : R String :=
+  match EncMsg.parse msg with
+  | .error e => .error e
+  | .ok m =>
+    match m.check P secrets with
+    | .error e => .error e
+    | .ok o =>
+      .ok s!"plaintext={showB o.chunks.flatten} sender={showB o.senderPub} anon={o.senderPub == m.eph} recipients={",".intercalate (m.recvs.map (fun r => showKid r.kid))}"
+
+/-! #### attached / detached signatures -/
+
+def attSigInput (major : Int) (hh : Bytes) (i : Nat) (p : AttPkt) : Bytes :=
+  sSigAttached ++ (if major = 1 then P.hash (hh ++ be64 i ++ p.chunk)
+                   else P.hash (hh ++ be64 i ++ sFinal p.final ++ p.chunk))
+
+def attPkt (major : Int) (pk hh : Bytes) (i : Nat) (last : Bool) (p : AttPkt) : R Unit :=
+  if ¬ P.verify pk (attSigInput P major hh i p) p.sig then .error s!"packet {i}: signature does not verify"
+  else chunkRule major i last p.final p.chunk
+
+def attPkts (major : Int) (pk hh : Bytes) : Nat → List AttPkt → R Unit
+  | _, [] => .ok ()
+  | i, p :: ps =>
+    match attPkt P major pk hh i ps.isEmpty p with
+    | .error e => .error e
+    | .ok _ => attPkts major pk hh (i + 1) ps
 
 /-- attached signature; `nonceLen` is the length the specification demands for
     the random header nonce -/
-def attached (nonceLen : Nat) (msg : Bytes) : R String := do
-  let c ← common msg sModeAttached 5
-  match c.fields with
-  | [_, _, _, pkV, nV] =>
-    let pk ← asBinLen "signer public key" 32 pkV
-    let n ← asBin "header nonce" nV
-    need (n.length = nonceLen) s!"sign-header-nonce-len-{n.length} (the specification says {nonceLen})"
-    let hh := P.hash c.headerBytes
-    need (0 < c.packets.length) "no payload packet"
-    let mut out : Bytes := []
-    for (p, i) in c.packets.zipIdx do
-      let last := i + 1 == c.packets.length
-      let (final, sigV, chV) ← match c.major, p with
-        | 1, .arr [s, ch] => pure (last, s, ch)
-        | 2, .arr [f, s, ch] => do
-          let fl ← asBool "final flag" f
-          pure (fl, s, ch)
-        | _, _ => throw s!"packet {i} has the wrong shape"
-      let sg ← asBinLen "signature" 64 sigV
-      let chunk ← asBin s!"payload chunk of packet {i}" chV
-      let hashed := if c.major = 1 then P.hash (hh ++ be64 i ++ chunk) else P.hash (hh ++ be64 i ++ sFinal final ++ chunk)
-      need (P.verify pk (sSigAttached ++ hashed) sg) s!"packet {i}: signature does not verify"
-      need (chunk.length ≤ 1048576) "chunk longer than 1 MiB"
-      if c.major = 1 then need (chunk.isEmpty == last) s!"V1: empty chunk / last packet mismatch at {i}"
-      else
-        need (final == last) s!"V2: final flag on packet {i}, last={last}"
-        need (!chunk.isEmpty || (i == 0 && last)) "V2: empty chunk that is not the sole chunk"
-      out := out ++ chunk
-    .ok s!"plaintext={showB out} signer={showB pk}"
-  | _ => .error "header shape"
+def AttMsg.check (nonceLen : Nat) (m : AttMsg) : R Unit :=
+  if m.nonce.length ≠ nonceLen then
+    .error s!"sign-header-nonce-len-{m.nonce.length} (the specification says {nonceLen})"
+  else if m.pkts = [] then .error "no payload packet"
+  else attPkts P m.major m.signer (P.hash m.headerBytes) 0 m.pkts
 
-def detached (nonceLen : Nat) (sigMsg msg : Bytes) : R String := do
-  let c ← common sigMsg sModeDetached 5
-  match c.fields, c.packets with
-  | [_, _, _, pkV, nV], [sigV] =>
-    let pk ← asBinLen "signer public key" 32 pkV
-    let n ← asBin "header nonce" nV
-    need (n.length = nonceLen) s!"sign-header-nonce-len-{n.length} (the specification says {nonceLen})"
-    let sg ← asBinLen "signature" 64 sigV
-    need (P.verify pk (sSigDetached ++ P.hash (P.hash c.headerBytes ++ msg)) sg) "signature does not verify"
-    .ok s!"signer={showB pk}"
-  | _, _ => .error "a detached signature is a header packet and one signature"
+def AttMsg.plaintext (m : AttMsg) : Bytes := (m.pkts.map (·.chunk)).flatten
+
+def attached (nonceLen : Nat) (msg : Bytes) : R String :=
+  match AttMsg.parse msg with
+  | .error e => .error e
+  | .ok m =>
+    match m.check P nonceLen with
+    | .error e => .error e
+    | .ok _ => .ok s!"plaintext={showB m.plaintext} signer={showB m.signer}"
+
+def DetMsg.check (nonceLen : Nat) (m : DetMsg) (msg : Bytes) : R Unit :=
+  if m.nonce.length ≠ nonceLen then
+    .error s!"sign-header-nonce-len-{m.nonce.length} (the specification says {nonceLen})"
+  else if ¬ P.verify m.signer (sSigDetached ++ P.hash (P.hash m.headerBytes ++ msg)) m.sig then
+    .error "signature does not verify"
+  else .ok ()
+
+def detached (nonceLen : Nat) (sigMsg msg : Bytes) : R String :=
+  match DetMsg.parse sigMsg with
+  | .error e => .error e
+  | .ok m =>
+    match m.check P nonceLen msg with
+    | .error e => .error e
+    | .ok _ => .ok s!"signer={showB m.signer}"
+
+/-! #### signcryption -/
+
+/-- what opens the message: the box secret key or the symmetric key of one recipient -/
+inductive ScKey where
+  | box (secret : Bytes)
+  | sym (key : Bytes)
+  deriving DecidableEq, Repr
+
+/-- recipient `i` with its key: the identifier (for box recipients) is the
+    specified HMAC, the payload key box opens under the derived key; returns the
+    payload key -/
+def scRecvKey (eph : Bytes) (i : Nat) (r : ScRecv) : ScKey → R Bytes
+  | .box sk =>
+    let b := P.box sk eph sNonceDerived (zeros 32)
+    let dk := b.drop (b.length - 32)
+    if r.ident ≠ (P.hmac sCtxBoxKeyIdentifier (dk ++ sNonceRecip i)).take 32 then
+      .error "box recipient identifier is not the specified HMAC"
+    else match P.sbOpen dk (sNonceRecip i) r.box with
+      | some k => .ok k
+      | none => .error "payload key box does not open"
+  | .sym k =>
+    match P.sbOpen ((P.hmac sCtxSymmetricKey (eph ++ k)).take 32) (sNonceRecip i) r.box with
+    | some k => .ok k
+    | none => .error "payload key box does not open"
+
+def scSigInput (hh : Bytes) (i : Nat) (final : Bool) (chunk : Bytes) : Bytes :=
+  sSigEncrypted ++ hh ++ sHashNonce hh final i ++ sFinal final ++ P.hash chunk
+
+/-- packet `i`: decryption under the specified nonce, the signature (all zero
+    for an anonymous sender), chunk rules; returns the chunk -/
+def scPkt (pk hh senderPub : Bytes) (anon : Bool) (i : Nat) (last : Bool) (p : ScPkt) : R Bytes :=
+  if p.final ≠ last then .error s!"final flag on packet {i}, last={last}"
+  else
+    match P.sbOpen pk (sHashNonce hh p.final i) p.ct with
+    | none => .error s!"packet {i} does not decrypt"
+    | some att =>
+      if att.length < 64 then .error "no room for the signature"
+      else
+        let sg := att.take 64
+        let chunk := att.drop 64
+        if anon ∧ sg ≠ zeros 64 then .error "anonymous sender with a non-zero signature"
+        else if ¬ anon ∧ ¬ P.verify senderPub (scSigInput P hh i p.final chunk) sg then
+          .error s!"packet {i}: signature does not verify"
+        else
+          match chunkRule 2 i last p.final chunk with
+          | .error e => .error e
+          | .ok _ => .ok chunk
+
+def scPkts (pk hh senderPub : Bytes) (anon : Bool) : Nat → List ScPkt → R (List Bytes)
+  | _, [] => .ok []
+  | i, p :: ps =>
+    match scPkt P pk hh senderPub anon i ps.isEmpty p with
+    | .error e => .error e
+    | .ok c =>
+      match scPkts pk hh senderPub anon (i + 1) ps with
+      | .error e => .error e
+      | .ok cs => .ok (c :: cs)
+
+structure ScOpened where
+  payloadKey : Bytes
+  senderPub : Bytes
+  chunks : List Bytes
+  deriving DecidableEq, Repr
+
+def isAnon (senderPub : Bytes) : Bool := senderPub == zeros 32
+
+/-- signcryption, opened by recipient `idx` with `key` -/
+def ScMsg.check (m : ScMsg) (idx : Nat) (key : ScKey) : R ScOpened :=
+  match m.recvs[idx]? with
+  | none => .error "opener index"
+  | some r =>
+    match scRecvKey P m.eph idx r key with
+    | .error e => .error e
+    | .ok pk =>
+      match P.sbOpen pk sNonceSenderKey m.ssb with
+      | none => .error "sender secretbox does not open"
+      | some senderPub =>
+        if senderPub.length ≠ 32 then .error "sender key length"
+        else if m.pkts = [] then .error "no payload packet"
+        else
+          match scPkts P pk (P.hash m.headerBytes) senderPub (isAnon senderPub) 0 m.pkts with
+          | .error e => .error e
+          | .ok chunks => .ok ⟨pk, senderPub, chunks⟩
+
+def scKeyOf : Option Bytes → Option Bytes → Option ScKey
+  | some sk, _ => some (.box sk)
+  | none, some k => some (.sym k)
+  | none, none => none
 
 /-- signcryption; `opener`: `(index, box secret)` or `(index, symmetric key)` -/
-def signcryption (msg : Bytes) (idx : Nat) (boxSecret : Option Bytes) (symKey : Option Bytes) : R String := do
-  let c ← common msg sModeSigncryption 6
-  need (c.major = 2) "signcryption is version 2"
-  match c.fields with
-  | [_, _, _, ephV, ssbV, .arr rcv] =>
-    let eph ← asBinLen "ephemeral key" 32 ephV
-    let ssb ← asBinLen "sender secretbox" 48 ssbV
-    need (0 < rcv.length) "recipient count"
-    for r in rcv do
-      match r with
-      | .arr [idV, boxV] =>
-        let _ ← asBin "recipient identifier" idV
-        let _ ← asBinLen "payload key box" 48 boxV
-      | _ => throw "recipient entry is not a pair"
-    let (idB, bx) ← match rcv.getD idx .nil with
-      | .arr [.bin i, .bin b] => pure (i, b)
-      | _ => throw "opener index"
-    let nonce := sNonceRecip idx
-    let dk ← match boxSecret, symKey with
-      | some sk, _ =>
-        let b := P.box sk eph sNonceDerived (zeros 32)
-        let dk := b.drop (b.length - 32)
-        need (idB == (P.hmac sCtxBoxKeyIdentifier (dk ++ nonce)).take 32) "box recipient identifier is not the specified HMAC"
-        pure dk
-      | none, some k => pure ((P.hmac sCtxSymmetricKey (eph ++ k)).take 32)
-      | none, none => throw "no key"
-    let pk ← match P.sbOpen dk nonce bx with
-      | some k => pure k
-      | none => throw "payload key box does not open"
-    let senderPub ← match P.sbOpen pk sNonceSenderKey ssb with
-      | some s => pure s
-      | none => throw "sender secretbox does not open"
-    need (senderPub.length = 32) "sender key length"
-    let anon := senderPub.all (· == 0)
-    let hh := P.hash c.headerBytes
-    need (0 < c.packets.length) "no payload packet"
-    let mut out : Bytes := []
-    for (p, i) in c.packets.zipIdx do
-      let last := i + 1 == c.packets.length
-      match p with
-      | .arr [ctV, fV] =>
-        let ct ← asBin "ciphertext" ctV
-        let final ← asBool "final flag" fV
-        need (final == last) s!"final flag on packet {i}, last={last}"
-        let n := sHashNonce hh final i
-        match P.sbOpen pk n ct with
-        | none => throw s!"packet {i} does not decrypt"
-        | some att =>
-          need (64 ≤ att.length) "no room for the signature"
-          let sg := att.take 64
-          let chunk := att.drop 64
-          if anon then need (sg.all (· == 0)) "anonymous sender with a non-zero signature"
-          else need (P.verify senderPub (sSigEncrypted ++ hh ++ n ++ sFinal final ++ P.hash chunk) sg) s!"packet {i}: signature does not verify"
-          need (chunk.length ≤ 1048576) "chunk longer than 1 MiB"
-          need (!chunk.isEmpty || (i == 0 && last)) "empty chunk that is not the sole chunk"
-          out := out ++ chunk
-      | _ => throw s!"packet {i} has the wrong shape"
-    .ok s!"plaintext={showB out} sender={if anon then "anon" else showB senderPub}"
-  | _ => .error "header shape"
+def signcryption (msg : Bytes) (idx : Nat) (boxSecret : Option Bytes) (symKey : Option Bytes) : R String :=
+  match ScMsg.parse msg with
+  | .error e => .error e
+  | .ok m =>
+    match scKeyOf boxSecret symKey with
+    | none => .error "no key"
+    | some key =>
+      match m.check P idx key with
+      | .error e => .error e
+      | .ok o =>
+        .ok s!"plaintext={showB o.chunks.flatten} sender={if isAnon o.senderPub then "anon" else showB o.senderPub}"
 
 end
 end Saltpack.SpecDecode
